@@ -104,7 +104,8 @@ theorem set_name_exact {pp : PP} (P : PlainObj pp) (sec : Section) (hs : sec.isR
     (hoff : c.offset = some (P.start sec + ps1.flatten.length))
     (hnext : c.offsetNext = P.start sec + ps1.flatten.length + rc.length) (hne : c.nameEnd = ne) (hsec : c.sec = sec)
     (h41 : get16 pp.packet ne ≠ 41) (owner' : List (List UInt8)) (hgo' : GoodLabels owner')
-    (hsize : pp.packet.length + (labSum owner' + 1) - (ne - (P.start sec + ps1.flatten.length)) ≤ 65535) :
+    (hsize : ne - (P.start sec + ps1.flatten.length) < labSum owner' + 1 →
+      pp.packet.length + (labSum owner' + 1) - (ne - (P.start sec + ps1.flatten.length)) ≤ 65535) :
     ∃ (owner : List (List UInt8)) (f8 rd : Bytes) (pp' : PP) (P' : PlainObj pp'),
       rc = (encLabels owner ++ [0]) ++ f8 ++ put16 rd.length ++ rd ∧
       setRawName pp c (encLabels owner' ++ [0]) =
